@@ -64,9 +64,11 @@ def main():
     ids = sorted(x for x in os.listdir(os.path.join(VERIF, "seeded")) if os.path.exists(os.path.join(VERIF, "seeded", x, "meta.json")))
     if args:
         ids = [x for x in ids if any(x == a or x.startswith(a + "_") or (a.endswith("*") and x.startswith(a[:-1])) for a in args)]
+    if os.environ.get("RESEED_SKIP"):
+        ids = [x for x in ids if not re.search(os.environ["RESEED_SKIP"], x)]
     out = {}
     p = os.path.join(VERIF, "seeded", "RECHECK.json")
-    if os.path.exists(p) and args:
+    if os.path.exists(p) and (args or os.environ.get("RESEED_SKIP")):
         out = json.load(open(p)).get("seeds", {})
     head = sh("git -C %s rev-parse --short HEAD" % VERIF).stdout.strip()
     with concurrent.futures.ThreadPoolExecutor(j) as ex:
